@@ -9,6 +9,7 @@ package main
 
 import (
 	"fmt"
+	"go/types"
 	"os"
 	"strings"
 )
@@ -41,7 +42,12 @@ func init() {
 			var items []Item
 			for _, mc := range c.msgCases(shapeNs(c), false, false) {
 				mc := mc
-				items = append(items, Item{ID: mc.ID(), Run: func(c *Ctx) { c15(c, mc) }})
+				items = append(items, Item{ID: mc.ID(), Run: func(c *Ctx) { c15(c, mc, false) }})
+				if mc.N == 2 && c.sameTypedLists(mc.Mod, mc.Typ) {
+					// a dirty receiver whose same-typed lists share one backing array (a caller that put one slice
+					// into two fields): storage-reusing decoders must not let one list overwrite the other
+					items = append(items, Item{ID: mc.ID() + "/aliased-lists", Run: func(c *Ctx) { c15(c, mc, true) }})
+				}
 			}
 			return items
 		}}
@@ -265,7 +271,30 @@ func (c *Ctx) dirtyReceiver(h *harness, s *State, mc MsgCase) *Ptr {
 	return g2.MaterializePtr(s, dv)
 }
 
-func c15(c *Ctx, mc MsgCase) {
+// sameTypedLists: the type has two top-level list fields of the same Go type.
+func (c *Ctx) sameTypedLists(mod, tn string) bool {
+	T := c.w.typeOf(mod, tn)
+	if T == nil {
+		return false
+	}
+	st, ok := T.Underlying().(*types.Struct)
+	if !ok {
+		return false
+	}
+	for i := 0; i < st.NumFields(); i++ {
+		if _, ok := st.Field(i).Type().Underlying().(*types.Slice); !ok {
+			continue
+		}
+		for j := i + 1; j < st.NumFields(); j++ {
+			if types.Identical(st.Field(i).Type(), st.Field(j).Type()) {
+				return true
+			}
+		}
+	}
+	return false
+}
+
+func c15(c *Ctx, mc MsgCase, aliased bool) {
 	h, w, _, tail := c.rawHarness(mc, 2)
 	e := c.e()
 	s := h.s
@@ -275,9 +304,40 @@ func c15(c *Ctx, mc MsgCase) {
 	input := func(val func(*Term) uint64) []byte { return evalBytes(in, val) }
 	fresh := h.freshReceiver(s)
 	dirty := c.dirtyReceiver(h, s, mc)
+	if aliased {
+		// every later list field of the same type becomes the very slice of the first one
+		o := s.heap[dirty.Obj]
+		if sv, ok := o.Val.(*StructV); ok {
+			st := h.T.Underlying().(*types.Struct)
+			nf := append([]Value{}, sv.F...)
+			for i := 0; i < st.NumFields(); i++ {
+				si, ok := nf[i].(*SliceV)
+				if !ok {
+					continue
+				}
+				for j := i + 1; j < st.NumFields(); j++ {
+					if _, ok := nf[j].(*SliceV); ok && types.Identical(st.Field(i).Type(), st.Field(j).Type()) {
+						nf[j] = &SliceV{Obj: si.Obj, Off: si.Off, Len: si.Len, Cap: si.Cap}
+					}
+				}
+			}
+			o.Val = &StructV{F: nf}
+		}
+	}
 	dirtyBefore := h.g.Snapshot(s, dirty, mc.Mod, mc.Typ)
 	steps := func(val func(*Term) uint64) []map[string]any {
 		hx := hexOf(input(val))
+		if aliased {
+			return []map[string]any{
+				step("op", "newbuf", "buf", "b1", "hex", hx),
+				step("op", "newmsg", "msg", "f", "module", mc.Mod, "type", mc.Typ),
+				step("op", "decode", "msg", "f", "buf", "b1"),
+				step("op", "newbuf", "buf", "b2", "hex", hx),
+				step("op", "newmsg", "msg", "r", "module", mc.Mod, "type", mc.Typ, "value", h.g.Concretize(dirtyBefore, val)),
+				step("op", "aliaslists", "msg", "r"),
+				step("op", "decode", "msg", "r", "buf", "b2"),
+			}
+		}
 		return []map[string]any{
 			step("op", "newbuf", "buf", "b1", "hex", hx),
 			step("op", "newmsg", "msg", "f", "module", mc.Mod, "type", mc.Typ),
@@ -288,6 +348,9 @@ func c15(c *Ctx, mc MsgCase) {
 		}
 	}
 	judge := Judge{Kind: "two_msgs_ne", Step: 2, Step2: 5}
+	if aliased {
+		judge.Step2 = 6
+	}
 	e.pushCall(s, h.dec, []Value{fresh, &Ptr{Obj: h.bufID}}, nil)
 	for _, fs := range e.Run(s) {
 		if c.PathProblem(fs, "Decode(fresh)", nil) {
